@@ -273,6 +273,9 @@ impl FrameQueue {
     }
 
     pub fn reset_loss_rate(&mut self, new_loss_rate: f64) {
+        #[cfg(uflow_verif)]
+        crate::verif::trace::emit(crate::verif::trace::Event::ResetLossRate { p: new_loss_rate });
+
         self.feedback_gen.reset_loss_rate(new_loss_rate);
     }
 
@@ -315,6 +318,9 @@ impl FrameQueue {
             return;
         }
 
+        #[cfg(uflow_verif)]
+        crate::verif::trace::emit(crate::verif::trace::Event::AckGroupAccepted { base_id: ack.base_id, bitfield: ack.bitfield });
+
         for i in 0 .. bitfield_size {
             let frame_id = ack.base_id.wrapping_add(i);
 
@@ -326,6 +332,9 @@ impl FrameQueue {
                 // Receiver has received this packet
                 if sent_frame.acked == false {
                     sent_frame.acked = true;
+
+                    #[cfg(uflow_verif)]
+                    crate::verif::trace::emit(crate::verif::trace::Event::FrameAcked { frame_id });
 
                     // Mark each fragment acknowledged and clear the list
                     let fragment_refs = std::mem::take(&mut sent_frame.fragment_refs);
